@@ -358,7 +358,14 @@ class SysSim(Engine):
         st.sig.append((world["build"]["path"], world["build"]["sheets"], tuple(f["kind"] for f in faults), outcome[0],
                        len(world["flows"]), len(world["stocks"]), len(world["params"]), world["naming"]))
         # row faults on a one-row parameter table change nothing: only faults that really altered the input count
-        faults = [f for f in faults if f["kind"] not in ("param_row_dropped", "param_row_duplicated") or f["kind"] in applied]
+        faults = [f for f in faults if f["kind"] not in ("param_row_dropped", "param_row_duplicated", "param_row_unknown") or f["kind"] in applied]
+        # what the caller explicitly allowed is not a fault any more (missing values -> zero, rows with unknown items -> ignored)
+        am, ae = world["build"].get("flags", [False, False]) if world["build"]["path"] in ("csv", "excel") else (False, False)
+        permitted = [f for f in faults if (f["kind"] == "param_row_dropped" and am) or (f["kind"] == "param_row_unknown" and ae)]
+        faults = [f for f in faults if f not in permitted]
+        for f in permitted:
+            self._fault(st, f["kind"] + "_permitted_by_flag")
+        lenient_params = {world["params"][f["k"] % len(world["params"])]["name"] for f in permitted if f["kind"] == "param_row_dropped"}
         faults = [f for f in faults if f["kind"] not in ("dim_file_eio", "param_file_eacces") or "io_error" in applied]
         if faults:
             for f in faults:
@@ -372,7 +379,9 @@ class SysSim(Engine):
         if outcome[0] != "ret":
             raise Violation("build-succeeds", f"building a well-formed system through path '{world['build']['path']}' "
                                               f"(sheets named: {world['build']['sheets']}) raised {outcome[1]}", cls="build-succeeds:" + world["build"]["path"], **tags)
-        self._compare_system(st, world, sys_, tags)
+        self._compare_system(st, world, sys_, tags, lenient_params)
+        if permitted:
+            return
         # the same definition objects are used again (another scenario, another naming function): same answer
         world2 = _copy.deepcopy(world)
         if world["build"]["path"] == "direct":
@@ -385,7 +394,7 @@ class SysSim(Engine):
                             cls="rebuild-from-same-definitions", **tags)
         self._compare_system(st, world2, sys2, dict(tags, rebuild=True))
 
-    def _compare_system(self, st, world, sys_, tags):
+    def _compare_system(self, st, world, sys_, tags, lenient_params=()):
         def bad(clause, msg, **kw):
             raise Violation(clause, msg, cls=clause, **dict(tags, **kw))
 
@@ -455,6 +464,11 @@ class SysSim(Engine):
             if tuple(po.dims.letters) != tuple(p["dims"]):
                 bad("parameters-match", f"parameter '{p['name']}' dims {po.dims.letters} instead of {tuple(p['dims'])}")
             want = param_values(world, p)
+            if p["name"] in lenient_params:
+                # a row was dropped and allow_missing_parameter_values was given: every entry is the file's value or zero
+                if po.values.shape != want.shape or not np.all((po.values == want) | (po.values == 0)):
+                    bad("parameters-match", f"parameter '{p['name']}' (one row missing, permitted): entries are neither the file's value nor zero")
+                continue
             if po.values.shape != want.shape or not np.array_equal(po.values, want):
                 bad("parameters-match", f"parameter '{p['name']}' values differ from the file by label", layout=str(p["layout"]["wide"] is not None))
 
@@ -621,8 +635,12 @@ class SysSim(Engine):
             worst = max(imb.values(), default=0.0)
             gray = [v for v in imb.values() if tol / 2 < v < 2 * tol]
             if tol == 0.0:
-                # an explicit zero tolerance: imbalances that are mere float noise (far below the smallest booked mass) are not judged
+                # an explicit zero tolerance: imbalances that are mere float noise (far below the smallest booked mass) are not judged,
+                # and as soon as any array holds a non-integer value flodym's own partial sums may round: no verdict then
                 gray = [v for v in imb.values() if 0.0 < v < 0.1]
+                arrs = [f.values for f in sys_.flows.values()] + [a.values for s_ in sys_.stocks.values() for a in (s_.inflow, s_.outflow)]
+                if any(np.any(a[np.isfinite(a)] != np.round(a[np.isfinite(a)])) for a in arrs):
+                    gray = gray or [0.0]
             if gray:
                 self._probe(st, "verdict_in_gray_zone_skipped")
                 return
